@@ -278,7 +278,7 @@ class StoreProp(Prop):
                         raised = e
                     if self.id == 'C14':
                         if raised is None:
-                            vv.append(V('c14.in_use_removal_not_refused', op['op'], '%r succeeded although the element is still in use' % (op,)))
+                            vv.append(V('c14.in_use_removal_not_refused', op['op'], '%r succeeded although %s' % (op, 'the element is still in use' if op['op'].startswith('remove') else 'the operation is documented as refused')))
                         elif store.state_digest(wn) != before:
                             vv.append(V('c14.refused_op_changed_model', op['op'] + ('+with_control' if op.get('with_control') else ''),
                                         '%r was refused (%s) but the model changed' % (op, type(raised).__name__)))
